@@ -94,7 +94,9 @@ func newC20(r *core.Run) *c20World {
 	for i := 0; i < extra; i++ {
 		pp, ps := genPrices(r)
 		db := dbm.NewMemDB()
-		n := node.NewL2(db, c.w.genesis, node.L2Options{MinGasPrices: ps}, nil)
+		o := c.w.opts // the nodes differ in their node-local settings only
+		o.MinGasPrices = ps
+		n := node.NewL2(db, c.w.genesis, o, nil)
 		c.nodes = append(c.nodes, &c20Node{n: n, db: db, prices: pp, checkSeq: 1})
 		r.Logf("node %d min-gas-prices=%q", i+1, ps)
 	}
